@@ -325,6 +325,10 @@ def draw_setup(rng: random.Random, tier: str) -> dict:
         if rng.random() < 0.12:
             # often as the very first store operation of the process
             sc.insert(0 if rng.random() < 0.6 else rng.randint(0, len(sc)), 'merge')
+            if sc[0] == 'merge' and rng.random() < 0.5:
+                # ... and the only thing this thread ever does with stores: whoever comes next must
+                # still be refused
+                sc = ['merge'] + [a for a in sc[1:] if a in ('fork', 'open_bad', 'open_missing')]
         scripts.append(sc)
     r = rng.random()
     if r < 0.35:
